@@ -60,9 +60,11 @@ def value(dtype, b, proto_names):
     if dtype == "ProtocolType":
         if n != 1:
             raise NotConformant("proto width")
-        if b[0] not in proto_names:
-            raise NotConformant("protocol number without a name")
-        return {"ProtocolType": proto_names[b[0]]}
+        # a number IANA has not assigned (146..252) or an experimental one is still a valid value of
+        # a conformant record: the library's type for it is the name Unknown.  (Until the repair of
+        # the unnamed-protocol defect this said "not conformant" and the generator never sent one:
+        # the same mistake as with multi-record options data, II.3.)
+        return {"ProtocolType": proto_names.get(b[0], "Unknown")}
     if dtype == "Float64":
         if n != 8:
             raise NotConformant("float width")
